@@ -73,6 +73,8 @@ CapOf(T) == IF T = {} THEN 0 ELSE LET t == CHOOSE x \in T : TRUE IN Dev(t).n + C
 LiveOnAny(T) == Cardinality({k \in LiveKeys \cap DOMAIN pt : OnAny(pt[k].ppn, T)})
                 + Cardinality({p \in held : OnAny(p, T)})
 FitsPool(T, n) == LiveOnAny(T) + n <= CapOf(T)
+\* Distribute of n pages over G GPUs: no GPU receives more than this many (the last one also takes the remainder)
+DistMax(n, G) == (n \div G) + (n % G)
 \* pages of t that are certainly in the free list
 SureFree(t) == Dev(t).n - Cardinality({p \in out \cup limbo : OnDev(p, t)})
 SureFreePool(T) == CapOf(T) - Cardinality({p \in out \cup limbo : OnAny(p, T)})
@@ -163,7 +165,8 @@ Remap(pid, v, ds, ps, dv) ==
       keys == {<<pid, v + i>> : i \in 0..(n - 1)}
       old == {pt[k].ppn : k \in keys} IN
   /\ ~crashed /\ RemapOK(pid, v, ds, ps)
-  /\ \A t \in UNION {Targets(ds[i]) : i \in 1..n} : LiveOn(t) + n <= Dev(t).n
+  /\ \A t \in UNION {Targets(ds[i]) : i \in 1..n} :          \* every device has room for the pages it may receive
+       LiveOn(t) + Cardinality({i \in 1..n : t \in Targets(ds[i])}) <= Dev(t).n
   /\ dv \subseteq Deviations \cap {"RemapRecordsGivenDeviceID"}
   /\ ("RemapRecordsGivenDeviceID" \in dv => \E i \in 1..n : ~Actual(ds[i]))
   /\ Injective(ps)
